@@ -63,7 +63,7 @@ theorem lexSymbol_sat {n : Int} {l0 l : Lexer} (hn : l.len = n) (h0 : 0 ≤ l.st
   apply sliceOf_sat (by lx) (by lx) (by lx)
   intro sym _
   split
-  · exact errorf_sat
+  · first | exact errorf_sat | exact errorfAt_sat
   · exact emitInside_sat (by lx) (by lx) (by lx) (by lx) (by lx)
 
 /-- facts about the lexer handed to the later cases of lexInsideTag: `r` was read from `l0`;
@@ -79,7 +79,7 @@ theorem lexInsideTagRest_sat {n : Int} {l0 l : Lexer} {r : Int} (hn : l.len = n)
   split
   · exact emitInside_sat (by lx) (by lx) (by lx) (by lx) (by lx)
   split
-  · exact errorf_sat
+  · first | exact errorf_sat | exact errorfAt_sat
   split
   · exact emitInside_sat (by lx) (by lx) (by lx) (by lx) (by lx)
   split
@@ -90,7 +90,7 @@ theorem lexInsideTagRest_sat {n : Int} {l0 l : Lexer} {r : Int} (hn : l.len = n)
   · exact emitInside_sat (by lx) (by lx) (by lx) (by lx) (by lx)
   split
   · fin
-  · exact errorf_sat
+  · first | exact errorf_sat | exact errorfAt_sat
 
 set_option maxHeartbeats 1000000 in
 theorem lexInsideTagMid_sat {n : Int} {l0 l : Lexer} {r : Int} (hn : l.len = n) (h0 : 0 ≤ l.start)
